@@ -10,11 +10,13 @@
 """
 from __future__ import annotations
 
+import copy
 import io
 import json
 import os
 import re
 import shutil
+import threading
 from typing import Any, Dict, List, Optional, Sequence, Set, Tuple
 
 import fastavro
@@ -24,8 +26,9 @@ from harness.lib.coqio import to_coq
 INFLIGHT = "metadata/inflight"
 OPS = {"exists": "E", "open_file": "O", "read_file": "R", "list_files": "L", "get_modified_time": "S", "delete_file": "D",
        "read_json": "J"}        # J: only the metadata files are read this way (pointer plane, Model/GCPointer.v)
-FAULT_CODE = {"raise": 1, "missing": 1, "raisex": 2, "bad": 3}
-FAULT_CTOR = {"raise": "FRaise", "missing": "FRaise", "raisex": "FRaiseX", "bad": "FBad",
+FAULT_CODE = {"raise": 1, "missing": 1, "perm": 1, "timeout": 1, "raisex": 2, "value": 1, "bad": 3}
+RAISING = ("raise", "missing", "perm", "timeout", "raisex", "value")
+FAULT_CTOR = {"raise": "FRaise", "missing": "FRaise", "perm": "FRaise", "timeout": "FRaise", "raisex": "FRaiseX", "value": "FRaise", "bad": "FBad",
               "stream1": "FRaise", "stream2": "FRaiseX", "stream3": "FBad"}
 
 
@@ -337,71 +340,195 @@ class FakeTime:
         return self.now
 
 
-class TracingStorage:
-    """Delegates to the real backend; records (op, path) of every call; injects faults.
+OTHER_OPS = ("write_file", "write_json", "read_file_with_etag", "write_file_cas", "get_size", "open_seekable", "makedirs", "create_lock")
 
-    plan: list of {"op": "E", "key": path, "occ": n (0-based occurrence of this (op,key)), "kind": raise|missing|raisex|bad}
+
+def raise_fault(kind: str, name: str, path: str) -> None:
+    """The exception classes a backend raises for a failing operation.  OSError family: EIO, a 404 / ENOENT for an object
+    that exists (listed-then-vanished, not yet visible, unsearchable directory), EACCES, a timeout; outside the OSError
+    family: an SDK error (botocore ClientError stands behind NotOSError); the ValueError the local backend's own path
+    resolution raises (which read_manifest(_list)_file's Avro attempt catches like an OSError: FRaise for the model)."""
+    if kind == "raise":
+        raise OSError(5, f"injected I/O error on {name}({path})")
+    if kind == "missing":
+        raise FileNotFoundError(2, f"injected: no such file {path}")
+    if kind == "perm":
+        raise PermissionError(13, f"injected: permission denied on {name}({path})")
+    if kind == "timeout":
+        raise TimeoutError(110, f"injected: {name}({path}) timed out")
+    if kind == "raisex":
+        raise NotOSError(f"injected non-OSError failure on {name}({path})")
+    if kind == "value":
+        raise ValueError(f"injected: Security Error: {name}({path}) resolved outside the base directory")
+
+
+def minimal_backend(inner: Any) -> Any:
+    """A third-party backend: a class that derives from the library's StorageBackend and implements ONLY its abstract
+    methods (each delegating to `inner`, the table's own backend object).  Everything else -- every helper the abstract
+    base class offers with a default implementation, today's and tomorrow's -- is the base class's default, composed from
+    these primitives, which is what a collection on such a backend exercises."""
+    from datashard.storage_backend import StorageBackend
+    names = sorted(getattr(StorageBackend, "__abstractmethods__", ()))
+
+    def deleg(name: str) -> Any:
+        def method(self: Any, *a: Any, **kw: Any) -> Any:
+            return getattr(self._impl, name)(*a, **kw)
+        method.__name__ = name
+        return method
+    cls = type("ThirdPartyBackend", (StorageBackend,), {n: deleg(n) for n in names})
+    obj = cls()
+    obj._impl = inner
+    return obj
+
+
+class os_failing:
+    """with os_failing(fn, errno_name, target): ...  -- BELOW the backend interface: while the block runs, the named family of
+    operating-system calls fails with OSError(errno) for the path `target` itself (what a directory that can be listed but
+    not searched, a stale NFS handle or a failing disk does to ONE object; every other path is served normally).
+    fn: "stat" (os.stat / os.lstat: existence, type, size, mtime), "scandir" (os.scandir / os.listdir), "open" (open / os.open)."""
+
+    def __init__(self, fn: str, errno_name: str, target: str):
+        import errno as _errno
+        self.fn, self.code, self.target = fn, getattr(_errno, errno_name), os.path.realpath(target)
+
+    def _hit(self, p: Any) -> bool:
+        try:
+            q = os.fspath(p)
+        except TypeError:
+            return False
+        if isinstance(q, bytes):
+            q = os.fsdecode(q)
+        return os.path.abspath(q) == self.target or os.path.realpath(q) == self.target
+
+    def __enter__(self) -> "os_failing":
+        import builtins
+        names = {"stat": [(os, "stat"), (os, "lstat")], "scandir": [(os, "scandir"), (os, "listdir")],
+                 "open": [(builtins, "open"), (io, "open"), (os, "open")]}[self.fn]
+        self._saved = [(m, n, getattr(m, n)) for m, n in names]
+        probing = [False]
+        for m, n, real in self._saved:
+            def patched(p: Any = ".", *a: Any, _real: Any = real, **kw: Any) -> Any:
+                if not probing[0]:
+                    probing[0] = True          # _hit itself stats (realpath): not to be faulted
+                    try:
+                        hit = self._hit(p)
+                    finally:
+                        probing[0] = False
+                    if hit:
+                        raise OSError(self.code, os.strerror(self.code), os.fspath(p))
+                return _real(p, *a, **kw)
+            setattr(m, n, patched)
+        return self
+
+    def __exit__(self, *a: Any) -> None:
+        for m, n, real in self._saved:
+            setattr(m, n, real)
+
+
+def backend_root(inner: Any) -> Optional[str]:
+    """The directory a local backend (or a third-party backend delegating to one) stores the table in; None: not a directory."""
+    for o in (inner, getattr(inner, "_impl", None)):
+        bp = getattr(o, "base_path", None)
+        if isinstance(bp, str):
+            return bp
+    return None
+
+
+class TracingStorage:
+    """The real backend with every storage operation recorded as (op, path) and faults injected.
+
+    The backend OBJECT is instrumented, not wrapped: the collector is handed a copy of the backend whose class is a
+    subclass of the backend's own class with the storage operations overridden.  A helper method of the backend that is
+    composed from these operations (a default implementation in the abstract base class, a convenience added later) thus
+    has its constituent operations recorded and faulted like the collector's own calls; an operation called from INSIDE
+    another recorded operation (read_json -> read_file) is part of that operation and is neither recorded nor faulted.
+
+    plan: list of {"op": "E", "key": path, "occ": n (0-based occurrence of this (op,key)) or "*", "kind": a fault kind}
     """
 
     def __init__(self, inner: Any, plan: Optional[List[Dict[str, Any]]] = None):
-        self._inner = inner
         self._plan = list(plan or [])
         self.trace: List[Tuple[str, str, int]] = []     # (op code, path, fault code)
         self.unknown: List[str] = []
         self._seen: Dict[Tuple[str, str], int] = {}
+        self._depth = threading.local()
         self.mark: Optional[Tuple[int, int]] = None     # trace indices spanned by the first metadata refresh()
+        self._root = backend_root(inner)
+        self._inner = self._instrument(inner)
+
+    def _instrument(self, inner: Any) -> Any:
+        tracer = self
+        base = type(inner)
+
+        def over(name: str) -> Any:
+            base_method = getattr(base, name)
+
+            def method(obj: Any, *a: Any, **kw: Any) -> Any:
+                return tracer._call(name, lambda *b, **kb: base_method(obj, *b, **kb), *a, **kw)
+            method.__name__ = name
+            return method
+        ns = {n: over(n) for n in list(OPS) + list(OTHER_OPS) if callable(getattr(base, n, None))}
+        obj = copy.copy(inner)
+        obj.__class__ = type("Traced" + base.__name__, (base,), ns)
+        return obj
 
     def __getattr__(self, name: str) -> Any:
-        attr = getattr(self._inner, name)
-        if not callable(attr) or name.startswith("_"):
-            return attr
-        if name not in OPS:
-            if name in ("write_file", "write_json", "read_file_with_etag", "write_file_cas", "get_size", "open_seekable", "makedirs", "create_lock"):
-                def other(*a: Any, **kw: Any) -> Any:
-                    self.trace.append(("?" + name, str(a[0]) if a else "", 0))
-                    return attr(*a, **kw)
-                return other
-            return attr
-        code = OPS[name]
+        return getattr(self._inner, name)
 
-        def wrapped(path: str, *a: Any, **kw: Any) -> Any:
-            occ = self._seen.get((code, path), 0)
-            self._seen[(code, path)] = occ + 1
-            kind = None
-            hit: Dict[str, Any] = {}
-            for f in self._plan:
-                if f["op"] == code and f["key"] == path and f["occ"] in (occ, "*"):     # "*": the call fails every time
-                    kind, hit = f["kind"], f
-                    break
-            self.trace.append((code, path, (hit.get("code") or FAULT_CODE.get(kind, 0)) if kind else 0))
-            if kind == "stream":
-                # the stream misbehaves part-way: `code` says what that amounts to for the model (see c07.stream_faults)
-                real = attr(path, *a, **kw)
-                try:
-                    data = real.read()
-                finally:
-                    real.close()
-                return FaultyStream(data, hit["mode"], hit["k"])
-            if kind == "raise":
-                raise OSError(5, f"injected I/O error on {name}({path})")
-            if kind == "missing":
-                raise FileNotFoundError(2, f"injected: no such file {path}")
-            if kind == "raisex":
-                raise NotOSError(f"injected non-OSError failure on {name}({path})")
-            if kind == "bad":
-                if code == "E":
-                    return False
-                if code == "O":
-                    return io.BytesIO(b"\x00\x01 these bytes are neither Avro nor JSON \xff")
-                if code == "R":
-                    return b"\x00\x01 these bytes are neither Avro nor JSON \xff"
-                if code == "L":
-                    return list(attr(path, *a, **kw)) + ["../x"]
-                if code == "J":
-                    json.loads("\x00 this is not JSON")      # what read_json makes of garbled bytes: json.JSONDecodeError
-                raise OSError(5, f"injected I/O error on {name}({path})")
-            return attr(path, *a, **kw)
-        return wrapped
+    def _call(self, name: str, fn: Any, *a: Any, **kw: Any) -> Any:
+        if getattr(self._depth, "n", 0):
+            return fn(*a, **kw)                          # inside another recorded operation: part of that operation
+        self._depth.n = 1
+        try:
+            if name in OPS:
+                return self._op(name, fn, *a, **kw)
+            self.trace.append(("?" + name, str(a[0]) if a else "", 0))
+            return fn(*a, **kw)
+        finally:
+            self._depth.n = 0
+
+    def _op(self, name: str, attr: Any, *a: Any, **kw: Any) -> Any:
+        code = OPS[name]
+        path = a[0] if a else next(iter(kw.values()), "")
+        occ = self._seen.get((code, path), 0)
+        self._seen[(code, path)] = occ + 1
+        kind = None
+        hit: Dict[str, Any] = {}
+        for f in self._plan:
+            if f["op"] == code and f["key"] == path and f["occ"] in (occ, "*"):     # "*": the call fails every time
+                kind, hit = f["kind"], f
+                break
+        self.trace.append((code, path, (hit.get("code") or FAULT_CODE.get(kind, 4 if kind.startswith("os:") else 0)) if kind else 0))
+        if kind == "stream":
+            # the stream misbehaves part-way: `code` says what that amounts to for the model (see c07.stream_faults)
+            real = attr(*a, **kw)
+            try:
+                data = real.read()
+            finally:
+                real.close()
+            return FaultyStream(data, hit["mode"], hit["k"])
+        if kind in RAISING:
+            raise_fault(kind, name, path)
+        if kind is not None and kind.startswith("os:"):
+            # below the interface: the backend's own operation runs while the OS refuses the object (kind = "os:<fn>:<ERRNO>")
+            _os, fn, err = kind.split(":")
+            if self._root is None:
+                return attr(*a, **kw)
+            with os_failing(fn, err, os.path.join(self._root, str(path).lstrip("/"))):
+                return attr(*a, **kw)
+        if kind == "bad":
+            if code == "E":
+                return False
+            if code == "O":
+                return io.BytesIO(b"\x00\x01 these bytes are neither Avro nor JSON \xff")
+            if code == "R":
+                return b"\x00\x01 these bytes are neither Avro nor JSON \xff"
+            if code == "L":
+                return list(attr(*a, **kw)) + ["../x"]
+            if code == "J":
+                json.loads("\x00 this is not JSON")      # what read_json makes of garbled bytes: json.JSONDecodeError
+            raise OSError(5, f"injected I/O error on {name}({path})")
+        return attr(*a, **kw)
 
 
 def phase_of(exc: BaseException) -> int:
@@ -420,13 +547,15 @@ def phase_of(exc: BaseException) -> int:
 
 
 def run_collect(table: Any, grace_ms: int, now_s: float, plan: Optional[List[Dict[str, Any]]] = None,
-                table_path_override: Optional[str] = None) -> Dict[str, Any]:
+                table_path_override: Optional[str] = None, backend: Optional[str] = None) -> Dict[str, Any]:
     """One real Table.garbage_collect(grace_ms) with the clock frozen at now_s and an optional fault plan.
+
+    backend="thirdparty": the collection runs on a backend that implements only the abstract interface (minimal_backend).
 
     Returns {raised, exc_type, exc, phase, trace (post-refresh), pre_trace, keep_sets, unknown}."""
     import datashard.garbage_collector as gcmod
     from datashard.garbage_collector import GarbageCollectionAborted, GarbageCollector
-    st = TracingStorage(table.storage, plan)
+    st = TracingStorage(minimal_backend(table.storage) if backend == "thirdparty" else table.storage, plan)
     saved = (table.file_manager.storage, table.metadata_manager.storage, gcmod.time, table.table_path,
              GarbageCollector._gc_prefix, table.metadata_manager.refresh)
     keep_sets: List[Tuple[str, List[str]]] = []
